@@ -77,6 +77,23 @@ let () =
       for _ = 1 to ai a 1 do st := Some (sys_cpu_cycle (cur ())); check_fault () done);
   register "sys.frame" (fun a ->
       for _ = 1 to ai a 1 do st := Some (ok (sys_run_frame (cur ()))) done);
+  (* sys.lcdtrace N : N hardware cycles; (LY, STAT mode bits, IF bits 1-0) after each, run-length encoded *)
+  register "sys.lcdtrace" (fun a ->
+      let buf = Buffer.create 256 in
+      Buffer.add_string buf "L";
+      let last = ref (-1, -1, -1) and cnt = ref 0 in
+      let flush () = if !cnt > 0 then begin
+          let (x, y, z) = !last in Buffer.add_string buf (Printf.sprintf " %d,%d,%d*%d" x y z !cnt) end in
+      for _ = 1 to ai a 1 do
+        let (c, s) = cur () in
+        let s1 = ok (sys_hw_cycle s) in
+        st := Some (c, s1);
+        let rd ad = let (_, v) = ok (sys_read s1 (n_of_int ad)) in int_of_n v in
+        let cur3 = (rd 0xff44, rd 0xff41 land 3, rd 0xff0f land 3) in
+        if cur3 = !last then incr cnt else begin flush (); last := cur3; cnt := 1 end
+      done;
+      flush ();
+      emit (Buffer.contents buf));
   register "sys.step" (fun _ ->
       let n = ref 0 in
       st := Some (ok (sys_cycle (cur ()))); incr n;
